@@ -377,11 +377,6 @@ func run(c Case) *h.Result {
 	for i := 1; i <= 3; i++ {
 		pre = append(pre, r.L(sym("setq"), sym(fmt.Sprintf("*m%d*", i)), r.L(sym("make-mutex"))), r.L(sym("setq"), sym(fmt.Sprintf("*s%d*", i)), nil))
 	}
-	m.Run(pre)
-	m.Trace = nil
-	want := m.Run(forms)
-
-	// slip run
 	slip.CurrentPackage.Undefine("zw")
 	defer slip.CurrentPackage.Undefine("zw")
 	scope := slip.NewScope()
@@ -390,55 +385,68 @@ func run(c Case) *h.Result {
 	for i := 1; i <= 3; i++ {
 		fmt.Fprintf(&setup, "(setq *m%d* (make-mutex)) (setq *s%d* nil)", i, i)
 	}
-	ev.MustEval(scope, setup.String())
-	ev.ResetTrace()
-	got := ev.EvalForms(scope, c.Prog)
-	gotTrace := ev.TraceString()
-
-	describe := func() string {
-		w := "value " + r.Show(firstVal(want.Vals))
-		if want.Err != nil {
-			w = "condition of class " + slipClass[want.Err.Class] + " (" + want.Err.Class + ")"
+	// one evaluation of the program by the reference and by slip (through eval), compared
+	attempt := func(how string, eval func() ev.Outcome) string {
+		m.Run(pre)
+		m.Trace = nil
+		want := m.Run(forms)
+		ev.MustEval(scope, setup.String())
+		ev.ResetTrace()
+		got := eval()
+		gotTrace := ev.TraceString()
+		describe := func() string {
+			w := "value " + r.Show(firstVal(want.Vals))
+			if want.Err != nil {
+				w = "condition of class " + slipClass[want.Err.Class] + " (" + want.Err.Class + ")"
+			}
+			return fmt.Sprintf("program%s:\n%s\n  expected %s\n  got      %s\n  expected trace: %s\n  got trace:      %s", how, c.Prog, w, got, want.Trace, gotTrace)
 		}
-		return fmt.Sprintf("program:\n%s\n  expected %s\n  got      %s\n  expected trace: %s\n  got trace:      %s", c.Prog, w, got, want.Trace, gotTrace)
+		switch {
+		case want.Err != nil:
+			if got.Kind != ev.Condition || got.Class != slipClass[want.Err.Class] {
+				return describe()
+			}
+		default:
+			if got.Kind != ev.Value {
+				return describe()
+			}
+			if w, g := r.Show(firstVal(want.Vals)), showSlip(primary(got.Val)); w != g {
+				return describe()
+			}
+		}
+		if want.Trace != gotTrace {
+			return describe()
+		}
+		// post-conditions: every mutex free, every stream closed
+		for i := 1; i <= 3; i++ {
+			mo := scope.Get(slip.Symbol(fmt.Sprintf("*m%d*", i)))
+			mu, ok := mo.(*gi.Mutex)
+			if !ok {
+				return fmt.Sprintf("harness: *m%d* is %s", i, sx.Text(mo))
+			}
+			if !tryLock(mu) {
+				return fmt.Sprintf("program%s:\n%s\n  mutex *m%d* is still locked after the program finished (%s)", how, c.Prog, i, got)
+			}
+			so := scope.Get(slip.Symbol(fmt.Sprintf("*s%d*", i)))
+			if so != nil {
+				scope.Let(slip.Symbol("probe-stream"), so)
+				open := ev.Eval(scope, "(open-stream-p probe-stream)")
+				if open.Kind != ev.Value || open.Val != nil {
+					return fmt.Sprintf("program%s:\n%s\n  stream *s%d* opened by with-open-file is still open afterwards: %s", how, c.Prog, i, open)
+				}
+			}
+		}
+		return ""
 	}
-	switch {
-	case want.Err != nil:
-		if got.Kind != ev.Condition || got.Class != slipClass[want.Err.Class] {
-			res.Err = describe()
-			return res
-		}
-	default:
-		if got.Kind != ev.Value {
-			res.Err = describe()
-			return res
-		}
-		if w, g := r.Show(firstVal(want.Vals)), showSlip(primary(got.Val)); w != g {
-			res.Err = describe()
-			return res
-		}
-	}
-	if want.Trace != gotTrace {
-		res.Err = describe()
+	if res.Err = attempt("", func() ev.Outcome { return ev.EvalForms(scope, c.Prog) }); res.Err != "" {
 		return res
 	}
-	// post-conditions: every mutex free, every stream closed
-	for i := 1; i <= 3; i++ {
-		mo := scope.Get(slip.Symbol(fmt.Sprintf("*m%d*", i)))
-		mu, ok := mo.(*gi.Mutex)
-		if !ok {
-			return h.Fail("harness: *m%d* is %s", i, sx.Text(mo))
-		}
-		if !tryLock(mu) {
-			res.Err = fmt.Sprintf("program:\n%s\n  mutex *m%d* is still locked after the program finished (%s)", c.Prog, i, got)
-			return res
-		}
-		so := scope.Get(slip.Symbol(fmt.Sprintf("*s%d*", i)))
-		if so != nil {
-			scope.Let(slip.Symbol("probe-stream"), so)
-			open := ev.Eval(scope, "(open-stream-p probe-stream)")
-			if open.Kind != ev.Value || open.Val != nil {
-				res.Err = fmt.Sprintf("program:\n%s\n  stream *s%d* opened by with-open-file is still open afterwards: %s", c.Prog, i, open)
+	// the same code objects (read once) evaluated twice: exits, cleanups and their markers must work again on code whose
+	// argument slots the first evaluation has compiled in place
+	if code, o := ev.ReadForms(scope, c.Prog); o.Kind == ev.Value {
+		for k := 1; k <= 2; k++ {
+			how := fmt.Sprintf(" (read once, evaluation %d of the same code objects)", k)
+			if res.Err = attempt(how, func() ev.Outcome { return ev.EvalObjects(scope, code) }); res.Err != "" {
 				return res
 			}
 		}
